@@ -1,9 +1,9 @@
 SPECIFICATION Spec
 CONSTANTS
   Classes = {"p", "gt", "rsb", "bmp"}
-  MaxNodes = 5
-  MaxChars = 2
-  MaxVal = 2
+  MaxNodes = 4
+  MaxChars = 3
+  MaxVal = 3
   MaxDepth = 2
   LeafKinds = {"text", "cdata", "comment", "pi"}
   AttrRanks = {1}
